@@ -24,6 +24,12 @@
     * `asis_chord_angle_misorders`               the key of the code AS FOUND (angle between 3-D chords)
                                                  orders two unit vectors against their azimuth, the
                                                  repaired key (tangent-plane angle) does not.
+    * `order_scale_invariant`, `tproj_scale`, `side_scale`, `keyOfVecs_scale`
+                                                 the repaired key depends on DIRECTIONS only: scaling the
+                                                 node and each centre by any positive factors (Earth radius
+                                                 in km or m, mixed radii) leaves every key unchanged;
+    * `asis_unit_normal_helper_wrong`            a projection `v − (v·c)c` (unit normals only) misorders the
+                                                 witness at radius 2.
   What is NOT proved (tested by the harness, judged by the Lean driver): that the face centres
   around a node are angularly ordered like the face ring (mesh geometry), IEEE rounding.
 -/
@@ -517,8 +523,17 @@ theorem dot_smul_smul (k l : ℝ) (a b : V3 ℝ) : dot (V3.smul k a) (V3.smul l 
     of the chord from `c` to `s` -/
 theorem tproj_scale (c s : V3 ℝ) (a b : ℝ) (ha : a ≠ 0) (hc : dot c c ≠ 0) :
     tproj (V3.smul a c) ((V3.smul b s).sub (V3.smul a c)) = V3.smul b (tproj c (s.sub c)) := by
-  simp only [dot] at hc
-  simp only [tproj, V3.sub, V3.smul, dot]
+  have h1 : dot ((V3.smul b s).sub (V3.smul a c)) (V3.smul a c) = a * b * dot s c - a ^ 2 * dot c c := by
+    simp only [dot, V3.sub, V3.smul]; ring
+  have h2 : dot (V3.smul a c) (V3.smul a c) = a ^ 2 * dot c c := by
+    simp only [dot, V3.smul]; ring
+  have h3 : dot (s.sub c) c = dot s c - dot c c := by
+    simp only [dot, V3.sub]; ring
+  unfold tproj
+  rw [h1, h2, h3]
+  generalize dot s c = σ
+  generalize dot c c = q at hc
+  simp only [V3.sub, V3.smul]
   congr 1 <;> (field_simp; ring)
 
 theorem side_scale (c n0 d : V3 ℝ) (a b0 b : ℝ) :
@@ -593,6 +608,24 @@ theorem clamp_pos {x : ℝ} (hx : 0 < x) :
     have h2 : realNum.lt x (-1) = false := by simp only [realNum, decide_eq_false_iff_not]; linarith
     simp only [this, Bool.false_eq_true, if_false, h2]; exact ⟨hx, by linarith⟩
 
+/-- two vectors on the non-reflected side, one with negative and one with positive cosine to `z`:
+    the one with the positive cosine gets the smaller key -/
+theorem keyOfVecs_lt_of_signs (z d1 d2 : V3 ℝ) (sd1 sd2 : ℝ) (h1 : sd1 ≤ 0) (h2 : sd2 ≤ 0)
+    (hN1 : dot z d1 < 0) (hN2 : 0 < dot z d2) (hz : 0 < dot z z) (hd1 : 0 < dot d1 d1)
+    (hd2 : 0 < dot d2 d2) :
+    keyOfVecs realNum true z d2 sd2 < keyOfVecs realNum true z d1 sd1 := by
+  have hs1 : realNum.lt 0 sd1 = false := by simp only [realNum, decide_eq_false_iff_not]; linarith
+  have hs2 : realNum.lt 0 sd2 = false := by simp only [realNum, decide_eq_false_iff_not]; linarith
+  have hx1 : dot z d1 / (Dual.norm realNum z * Dual.norm realNum d1) < 0 := by
+    apply div_neg_of_neg_of_pos hN1
+    exact mul_pos (Real.sqrt_pos.mpr hz) (Real.sqrt_pos.mpr hd1)
+  have hx2 : 0 < dot z d2 / (Dual.norm realNum z * Dual.norm realNum d2) := by
+    apply div_pos hN2
+    exact mul_pos (Real.sqrt_pos.mpr hz) (Real.sqrt_pos.mpr hd2)
+  simp only [keyOfVecs, Bool.true_and, hs1, hs2, Bool.false_eq_true, if_false]
+  exact Real.arccos_lt_arccos (clamp_neg hx1).2 (lt_trans (clamp_neg hx1).1 (clamp_pos hx2).1)
+    (clamp_pos hx2).2
+
 /-- **a projection helper that assumes a unit normal is wrong off the unit sphere**: the same four
     witness points scaled to radius 2 (still `s1` before `s2` counter-clockwise, and the repaired key
     still says so by `order_scale_invariant`); with `vec − (vec·c) c` the cosine of `s1` is negative
@@ -603,7 +636,15 @@ theorem asis_unit_normal_helper_wrong :
     keyWith realNum true (V3.smul 2 wc) (V3.smul 2 wn0) (V3.smul 2 ws1)
         < keyWith realNum true (V3.smul 2 wc) (V3.smul 2 wn0) (V3.smul 2 ws2) := by
   constructor
-  · sorry
+  · unfold keyUnitHelper
+    apply keyOfVecs_lt_of_signs
+    · simp only [side, tprojUnit, dot, cross, V3.sub, V3.smul, wc, wn0, ws1]; norm_num
+    · simp only [side, tprojUnit, dot, cross, V3.sub, V3.smul, wc, wn0, ws2]; norm_num
+    · simp only [tprojUnit, dot, V3.sub, V3.smul, wc, wn0, ws1]; norm_num
+    · simp only [tprojUnit, dot, V3.sub, V3.smul, wc, wn0, ws2]; norm_num
+    · simp only [tprojUnit, dot, V3.sub, V3.smul, wc, wn0]; norm_num
+    · simp only [tprojUnit, dot, V3.sub, V3.smul, wc, ws1]; norm_num
+    · simp only [tprojUnit, dot, V3.sub, V3.smul, wc, ws2]; norm_num
   · rw [order_scale_invariant wc wn0 ws1 2 2 2 two_pos two_pos two_pos (by simp only [dot, wc]; norm_num),
       order_scale_invariant wc wn0 ws2 2 2 2 two_pos two_pos two_pos (by simp only [dot, wc]; norm_num),
       key_repaired_s1, key_repaired_s2]
